@@ -55,7 +55,7 @@ def soup(rng, quick):
     terms = (seg_t, ele_t, sub_t)
     alpha = ''.join(c for c in ALPHA if c not in terms)
     eol = rng.choice(reencode.EOLS) if seg_t not in '\r\n' else ''
-    out = [isa_text(terms, rng.choice(['00401', '00501']), rng), eol]
+    out = [isa_text(terms, rng.choice(['00401', '00501']), rng), eol if eol != 'mixed' else rng.choice(['', '\n', '\r\n', '\r'])]
     feats = set()
     nseg = rng.randint(3, 40)
     target = rng.choice([None, None, 8190, 8191, 0, 1, 2])
@@ -97,7 +97,7 @@ def soup(rng, quick):
                 feats.add('leading-blank-then-other-whitespace')
         elif r < 0.09:
             out.append(seg_t)          # empty segment
-            out.append(eol)
+            out.append(eol if eol != 'mixed' else rng.choice(['', '\n', '\r\n', '\r']))
             feats.add('empty-segment')
         elif r < 0.10 and seg_t != ' ':
             out.append('  ' + seg_t)   # blank-only segment
@@ -110,7 +110,7 @@ def soup(rng, quick):
             if fill > 0:
                 out.append('K3' + ele_t + ''.join(rng.choice(alpha.replace(' ', 'Q')) for _ in range(fill)))
                 out.append(seg_t)
-                out.append(eol)
+                out.append(eol if eol != 'mixed' else rng.choice(['', '\n', '\r\n', '\r']))
                 feats.add('boundary:%d' % target)
                 if fill > 8192:
                     feats.add('long-segment')
@@ -122,10 +122,10 @@ def soup(rng, quick):
         else:
             out.append(pre + segment())
         out.append(seg_t)
-        out.append(eol)
+        out.append(eol if eol != 'mixed' else rng.choice(['', '\n', '\r\n', '\r']))
     if rng.random() < 0.15:
         # characters after the last terminator (end-of-file mark, padding, free text, the stump of a cut-off segment): not delimited, so not a segment
-        tail = rng.choice(['\x1a', '   ', 'END OF FILE\n', 'SE' + ele_t + '12' + ele_t + '0001', ' ' + eol, 'IEA' + ele_t + '1', '\x00'])
+        tail = rng.choice(['\x1a', '   ', 'END OF FILE\n', 'SE' + ele_t + '12' + ele_t + '0001', ' ' + (eol if eol != 'mixed' else '\n'), 'IEA' + ele_t + '1', '\x00'])
         if seg_t not in tail:
             out.append(tail)
             feats.add('text-after-last-terminator')
